@@ -24,8 +24,8 @@ typedef uint32_t u32;
 typedef uint64_t u64;
 typedef uint8_t u8;
 
-static int verif_cur;
-static unsigned verif_budget;
+static int verif_cur = VERIF_NT;
+static unsigned verif_budget = 0x7fffffff; /* global constructors run before main */
 static int verif_changed;
 static int verif_last[VERIF_NSLOT];
 static u32* verif_blocked_on[VERIF_NSLOT];
